@@ -658,6 +658,9 @@ class Interp:
     def inv_ns(self, fr, k=None, old=None):
         d = dict(getattr(self, "ghosts", {}))
         d.update(fr.env)
+        for kk, vv in fr.env.items():
+            if kk.startswith("__k"):
+                d["k" + kk[3:]] = vv
         d["old"] = NS(fr.entry)
         if k is not None:
             d["k"] = k
@@ -731,6 +734,7 @@ class Interp:
             k = ctx.fresh_int("k")
             ctx.assume(k >= 0)
             ctx.assume(k <= it.length)
+            fr.env["__k%d" % ordinal] = k      # visible to invariants of nested loops as k<ordinal>
         if spec.inv is not None:
             ctx.assume(self.call_spec(spec.inv, fr, k))
         # 3. continue or exit
